@@ -223,6 +223,49 @@ func runDV(rng *rand.Rand) (viols []viol, st runStats) {
 
 	type step struct{ kind, val, y int }
 	overl := 0
+	// targets attached (InheritFrom / DeriveValueFrom / new DerivedVariable on existing inputs) while the source is
+	// being written; they stay attached and are checked at every later quiescent point
+	type attached struct {
+		Kind      string
+		Src, Src2 int
+		Call, Ret uint64
+		get       func() int
+		want      func() int
+	}
+	var amu sync.Mutex
+	var atts []*attached
+	var zeroWrites [4][]span // tick intervals of writes of the zero value, per input
+	attach := func(kind, j, j2 int) {
+		a := &attached{Src: j, Src2: j2}
+		a.Call = tick()
+		switch kind {
+		case 0:
+			a.Kind = "inheritfrom"
+			t := reactive.NewVariable[int]()
+			if j2%2 == 0 {
+				t.Init(777)
+			}
+			t.InheritFrom(in[j])
+			a.get, a.want = t.Get, in[j].Get
+		case 1:
+			a.Kind = "derivevaluefrom"
+			t := reactive.NewVariable[int]()
+			t.DeriveValueFrom(reactive.NewDerivedVariable[int](func(_ int, x int) int { return x }, in[j]))
+			a.get, a.want = t.Get, in[j].Get
+		case 2:
+			a.Kind = "derivedvariable1"
+			t := reactive.NewDerivedVariable[int](func(_ int, x int) int { return 3 * x }, in[j])
+			a.get, a.want = t.Get, func() int { return 3 * in[j].Get() }
+		default:
+			a.Kind = "derivedvariable2"
+			t := reactive.NewDerivedVariable2[int](func(_ int, x, y int) int { return f(x, y) }, in[j], in[j2])
+			a.get, a.want = t.Get, func() int { return f(in[j].Get(), in[j2].Get()) }
+		}
+		a.Ret = tick()
+		amu.Lock()
+		atts = append(atts, a)
+		amu.Unlock()
+	}
 	// every round ends in a quiescent point (all writers joined) at which the oracle is evaluated; round -1 is the
 	// state right after construction (initial-value paths: inputs / sources that were already set)
 	for r := -1; r < rounds; r++ {
@@ -232,6 +275,9 @@ func runDV(rng *rand.Rand) (viols []viol, st runStats) {
 				plan := make([]step, 1+rng.Intn(3))
 				for k := range plan {
 					plan[k] = step{rng.Intn(3), rng.Intn(1000), rng.Intn(3)}
+					if rng.Intn(5) < 2 {
+						plan[k] = step{0, 0, rng.Intn(3)} // the zero value as a written value (X -> 0 -> X ...)
+					}
 				}
 				st.ops += len(plan)
 				v := in[i]
@@ -240,7 +286,14 @@ func runDV(rng *rand.Rand) (viols []viol, st runStats) {
 						yield(s.y)
 						switch s.kind {
 						case 0, 1:
+							t0 := tick()
 							v.Set(s.val)
+							if s.val == 0 {
+								t1 := tick()
+								amu.Lock()
+								zeroWrites[i] = append(zeroWrites[i], span{t0, t1})
+								amu.Unlock()
+							}
 						case 2:
 							v.Compute(func(c int) int { return (c + s.val) % 1000 })
 						}
@@ -260,11 +313,42 @@ func runDV(rng *rand.Rand) (viols []viol, st runStats) {
 				progress.Add(1)
 			})
 		}
+		if r >= 0 && rng.Intn(3) != 0 {
+			type at struct{ kind, j, j2, y int }
+			plan := make([]at, 1+rng.Intn(3))
+			for k := range plan {
+				plan[k] = at{rng.Intn(4), rng.Intn(n), rng.Intn(n), rng.Intn(4)}
+			}
+			st.structural += len(plan)
+			g.spawn("attacher", func() {
+				for _, p := range plan {
+					yield(p.y)
+					attach(p.kind, p.j, p.j2)
+					progress.Add(1)
+				}
+			})
+		}
 		g.run()
 		overl += overlapping(g.spans)
 		st.nontrivial = overl > 0
 		if len(g.pn.rec) > 0 {
 			return nil, st // reported by the guard
+		}
+		for _, a := range atts {
+			for _, j := range []int{a.Src, a.Src2} {
+				for _, z := range zeroWrites[j] {
+					if a.Ret != 0 && z.a < a.Ret && a.Call < z.b {
+						st.add("attaches_overlapping_zero_write", 1)
+						a.Ret = 0 // counted once
+					}
+				}
+			}
+			if got, want := a.get(), a.want(); got != want {
+				return []viol{{a.Kind + "/diverges-after-concurrent-attach", fmt.Sprintf("%s attached to input %d while it was being written (values incl. the zero value) holds %d, its defining function of the current inputs is %d (round %d)", a.Kind, a.Src, got, want, r), map[string]any{"kind": a.Kind, "source": a.Src, "source2": a.Src2, "got": got, "want": want, "round": r}}}, st
+			}
+		}
+		for i := range zeroWrites {
+			zeroWrites[i] = zeroWrites[i][:0]
 		}
 		vals := make([]int, n)
 		for i := range vals {
@@ -302,7 +386,7 @@ type setStep struct {
 	Yield int `json:"-"`
 }
 
-var setKinds = []string{"add", "delete", "addall", "deleteall", "apply", "toggle", "replace"}
+var setKinds = []string{"add", "delete", "addall", "deleteall", "apply", "toggle", "replace", "clear"}
 
 func genSetStep(rng *rand.Rand, src, U int, withReplace bool) setStep {
 	rmask := func() uint32 { return (rng.Uint32() & (1<<uint(U) - 1)) << 1 }
@@ -316,6 +400,11 @@ func genSetStep(rng *rand.Rand, src, U int, withReplace bool) setStep {
 		s.A = 1 << uint(1+rng.Intn(U))
 	case "addall", "deleteall":
 		s.A = rmask() & rmask()
+	case "clear": // the set becomes empty (its zero value)
+		s.Kind, s.A = "deleteall", (1<<uint(U)-1)<<1
+		if withReplace && rng.Intn(2) == 0 {
+			s.Kind, s.A = "replace", 0
+		}
 	case "replace":
 		s.A = rmask()
 	case "apply":
@@ -1467,7 +1556,7 @@ func run(c *vf.Ctx) {
 		}
 		return
 	}
-	c.SetRule("one evaluation = one run of one scenario (DerivedVariable1-4/InheritFrom/DeriveValueFrom, DerivedSet, SubtractReactive, Counter, SortedSet x4, WaitGroup, EvictionState) on fresh objects: seeded writer goroutines on different inputs plus structural changes (inherit/unsubscribe source, Monitor, add/delete/re-add element, Replace on a source, weight updates of present and removed elements), then the defining function is recomputed from the inputs at quiescence (right after construction/attachment with inputs that are already zero / non-zero, after every round of concurrent writes, in sequential scenarios after every step; Counter conditions come from a seeded family incl. conditions that hold for the zero value); runs are distinct by construction (run seed); distinct_nontrivial counts runs in which at least two writer goroutines' activity spans overlapped by logical ticks (sequential scenarios: at least 3 effective steps)")
+	c.SetRule("one evaluation = one run of one scenario (DerivedVariable1-4/InheritFrom/DeriveValueFrom, DerivedSet, SubtractReactive, Counter, SortedSet x4, WaitGroup, EvictionState) on fresh objects: seeded writer goroutines on different inputs plus structural changes (inherit/unsubscribe source, Monitor, add/delete/re-add element, Replace on a source, weight updates of present and removed elements), then the defining function is recomputed from the inputs at quiescence (right after construction/attachment with inputs that are already zero / non-zero, after every round of concurrent writes, in sequential scenarios after every step; Counter conditions come from a seeded family incl. conditions that hold for the zero value; writer streams include the zero value / the empty set; InheritFrom, DeriveValueFrom and new DerivedVariables are attached to inputs while these are written and stay checked); runs are distinct by construction (run seed); distinct_nontrivial counts runs in which at least two writer goroutines' activity spans overlapped by logical ticks (sequential scenarios: at least 3 effective steps)")
 	total := c.Pick(30000, 600000)
 	chunk := c.Pick(600, 6000)
 	var jobs []job
@@ -1503,6 +1592,7 @@ func run(c *vf.Ctx) {
 	c.Require("dv_inputs_nonzero_at_creation", total/50)
 	c.Require("dset_sources_nonempty_at_attach", total/50)
 	c.Require("ss_weights_nonzero_at_add", total/50)
+	c.Require("attaches_overlapping_zero_write", total/100)
 }
 
 func main() { vf.Main("C14", "exploration", run, child) }
